@@ -93,8 +93,9 @@ def pointwise_constants(tier):
         "LlfData": "{" + ", ".join("<<" + ", ".join(_rat(q) for q in d) + ">>" for d in LLF_DATA) + "}",
         "BoundMeans": "{<<0, 1>>, <<3, 2>>}",
         "BoundVarPool": "{<<1, 1>>, <<2, 1>>, <<8, 1>>, <<1, 2>>, <<15, 1>>, <<3, 5>>, <<12, 5>>}",
-        "BoundAs": "{<<-1, 1>>, <<-7, 2>>}",
-        "BoundBs": "{<<7, 1>>, <<9, 2>>}",
+        "BoundAs": "{<<-1, 1>>, <<-7, 2>>, <<0, 1>>}",     # 0: a given, falsy bound
+        "BoundBs": "{<<7, 1>>, <<9, 2>>, <<0, 1>>}",
+        "InputShapes": '{"scalar", "zero_d", "list", "array1", "array2"}',
         "FitLams": "{<<-1, 2>>, <<0, 1>>, <<1, 2>>, <<2, 1>>, <<1, 1>>}",
         "FitShifts": "{<<0, 1>>, <<1, 2>>, <<1, 1>>}",
     }
@@ -272,16 +273,22 @@ def replay_wrap(col, states, tier):
         cf = c["cfg"]
         x = np.array(c["pos"], dtype=float)
         stored = np.array(c["stored"], dtype=float) / QU
-        mean = 2.0 if cf["meanKind"] == "const" else (lambda x: 2.0 + x)
+        mean = {"const": 2.0, "zero": 0.0}.get(cf["meanKind"], (lambda x: 2.0 + x))
         trend = {"none": None, "const": 1.0, "call": (lambda x: 3.0 * x)}[cf["trendKind"]]
         vals = [v / QU for v in c["vals"]]
         thr = [t / QU for t in c["thr"]]
         method = cf["method"]
         kws = []
-        if method == "binary_default":
-            name, kws = "binary", [{}]
-        elif method == "binary_given":
-            name, kws = "binary", [dict(lower=vals[0], upper=vals[1], divide=thr[0])]
+        label = method
+        if method == "binary":
+            # every optional number: not given / given as a (falsy) zero in several spellings / another value
+            name, kws = "binary", []
+            spec = {"divide": (cf["divide"], thr[0]), "lower": (cf["lower"], vals[0]), "upper": (cf["upper"], vals[1])}
+            zeros = [a for a, (sp, _v) in spec.items() if sp == "zero"]
+            for zero in ((0.0, 0, np.float64(0.0)) if zeros else (0.0,)):
+                kws.append({a: (zero if sp == "zero" else v) for a, (sp, v) in spec.items() if sp != "default"})
+            label = "binary:" + ("zero=" + "+".join(zeros) if zeros else
+                                 ("defaults" if not kws[0] else "given=" + "+".join(sorted(kws[0]))))
         elif method == "discrete_arithmetic":
             name, kws = "discrete", [dict(values=vals, thresholds="arithmetic"),
                                      dict(values=np.array(vals), thresholds="arithmetic")]
@@ -291,7 +298,7 @@ def replay_wrap(col, states, tier):
         else:
             name, kws = "discrete", [dict(values=vals, thresholds="equal")]
         exp = None if c["rejected"] else np.array(c["res"], dtype=float) / QU
-        sig = "wrap:%s:process=%d:keep_mean=%d" % (method, cf["process"], cf["keepMean"])
+        sig = "wrap:%s:process=%d:keep_mean=%d" % (label, cf["process"], cf["keepMean"])
         for kw, entry in itertools.product(kws, ("Field.transform", "gstools.transform")):
             fld = Field(model, mean=mean, trend=trend)
             fld([x], field=stored.copy(), post_process=False)
@@ -325,7 +332,8 @@ def replay_wrap(col, states, tier):
                                                  cf["trendKind"], stored.tolist(), out.tolist(), exp.tolist()), rp)
         col.traces += 1
         col.nontrivial.add(("wrap", tlaval.freeze(cf)))
-        if method == "binary_default" and cf["process"] and not cf["keepMean"] and cf["trendKind"] == "call":
+        if method == "binary" and cf["divide"] == "zero" and cf["lower"] == "default" and cf["upper"] == "val" \
+                and cf["process"] and cf["keepMean"] and cf["trendKind"] == "call":
             col.sample({"section": "wrap", "cfg": cf, "positions": x.tolist(), "stored_field": stored.tolist(),
                         "documented_result": exp.tolist()}, cap=1)
 
@@ -592,7 +600,8 @@ def replay_bounds(col, states):
         if c["bGiven"]:
             kw[names[1]] = _f(c["b"])
         full = {names[0]: lo, names[1]: hi}            # every bound passed explicitly
-        inner = m + sd * np.array([-2.0, -1.0, -0.5, -0.25, 0.25, 0.5, 1.0, 2.0])
+        # asymmetric: the sample mean differs from the given mean (an explicit mean of 0 must be used)
+        inner = m + sd * np.array([-2.0, -1.0, -0.5, -0.25, 0.25, 0.5, 1.0, 2.0, 3.0, 2.5])
         x = np.concatenate(([m - 40.0 * sd, m, m + 40.0 * sd], inner))
         fn = {"uniform": gt.array_to_uniform, "arcsin": gt.array_to_arcsin, "uquad": gt.array_to_uquad}[method]
         fld = Field(gs.Gaussian(dim=1, var=0.75 * v, nugget=0.25 * v, len_scale=1.0), mean=m)
@@ -631,73 +640,93 @@ def replay_bounds(col, states):
 
 
 def replay_range(col, states, tier):
-    """domain table + the round-trip relation on the TLC-classified valid points"""
+    """domain table for every way of handing a value over (python number, 0-d array, list, 1-d and
+    2-d array) + the round-trip relation on the TLC-classified valid points"""
     groups = {}
     for st in states:
         c = st["c"]
-        groups.setdefault((c["norm"], tuple(c["lam"]), tuple(c["shift"]), c["dir"]), []).append(c)
-    for (name, lam, shift, direction), cases in sorted(groups.items()):
+        groups.setdefault((c["norm"], tuple(c["lam"]), tuple(c["shift"]), c["dir"], c["shape"]), []).append(c)
+    for (name, lam, shift, direction, shape), cases in sorted(groups.items()):
         lamf, sf = lam[0] / lam[1], shift[0] / shift[1]
         nrm = make_norm(name, lamf, sf)
         fn = getattr(nrm, direction)
-        inv = nrm.denormalize if direction == "normalize" else nrm.normalize
+        inv = {"normalize": nrm.denormalize, "denormalize": nrm.normalize}.get(direction)
         cases = sorted(cases, key=lambda c: (c["v"][1] == 0, _f(c["v"]) if c["v"][1] else 0.0))
         v = np.array([_f(c["v"]) for c in cases])
         cls = [c["cls"] for c in cases]
         lc = lamclass(name, lamf)
         sig = "range:%s:%s:%s" % (name, lc, direction)
+        rng_name = "denormalize_range" if direction == "denormalize" else "normalize_range"
         rp = {"section": "range", "normalizer": name, "lmbda": lamf, "shift": sf, "direction": direction,
-              "values": v.tolist(), "classes": cls}
-        # 1. the whole vector at once (NaN, out-of-range and valid entries mixed), then one by one
-        batches = [(v, cls, "mixed")] + [(v[i:i + 1], cls[i:i + 1], "single") for i in range(len(v))]
-        if tier == "thorough":
-            batches.append((v.reshape(2, -1), cls, "2-D")) if len(v) % 2 == 0 else None
-        for arr, cl, how in batches:
+              "input_as": shape, "values": v.tolist(), "classes": cls}
+        # the inputs in the shape TLC dictates: (argument, classes of its elements in C order)
+        if shape == "array1":     # the whole vector (NaN, out-of-range and valid mixed), then 1-element arrays
+            batches = [(v.copy(), cls)] + [(v[i:i + 1].copy(), cls[i:i + 1]) for i in range(len(v))]
+        elif shape == "list":
+            batches = [(v.tolist(), cls)]
+        elif shape == "array2":
+            batches = [(np.stack([v, v[::-1]]), cls + cls[::-1])]
+        elif shape == "scalar":
+            batches = [(float(x), [k]) for x, k in zip(v, cls)]
+        else:
+            batches = [(np.array(float(x)), [k]) for x, k in zip(v, cls)]
+        for arg, cl in batches:
+            shown = arg.tolist() if isinstance(arg, np.ndarray) else arg
             with warnings.catch_warnings(record=True) as wlist:
                 warnings.simplefilter("always")
                 try:
-                    out = np.asarray(fn(arr.copy()), dtype=float).reshape(-1)
+                    out = np.asarray(fn(arg), dtype=float).reshape(-1)
                 except Exception as e:  # noqa: BLE001
-                    col.violation(sig + ":exception", "%r.%s(%s) raised %r" % (nrm, direction, arr.tolist(), e), rp)
+                    col.violation(sig + ":" + shape + ":exception",
+                                  "%r.%s(%r) (input as %s, element classes %s) raised %r" % (nrm, direction, shown, shape, cl, e), rp)
                     continue
             col.evals += len(cl)
+            if len(out) != len(cl):
+                col.violation(sig + ":" + shape + ":shape", "%r.%s(%r) returned %d values for %d inputs"
+                              % (nrm, direction, shown, len(out), len(cl)), rp)
+                continue
             warned = any(issubclass(w.category, UserWarning) and "out of range" in str(w.message) for w in wlist)
             if warned != ("OutOfRange" in cl):
-                col.drift_msg("%r.%s(%s, %s): out-of-range warning %s although the table %s an out-of-range entry"
-                              % (nrm, direction, arr.reshape(-1).tolist(), how, "emitted" if warned else "missing",
+                col.drift_msg("%r.%s(%r, as %s): out-of-range warning %s although the table %s an out-of-range entry"
+                              % (nrm, direction, shown, shape, "emitted" if warned else "missing",
                                  "has" if "OutOfRange" in cl else "has no"))
-            for x, o, k in zip(arr.reshape(-1).tolist(), out.tolist(), cl):
+            flat = np.asarray(arg, dtype=float).reshape(-1).tolist()
+            for x, o, k in zip(flat, out.tolist(), cl):
                 if k in ("NaN", "OutOfRange"):
                     if not np.isnan(o):
                         col.violation(sig + (":nan-in" if k == "NaN" else ":out-of-range"),
-                                      "%r.%s(%r) = %r (%s batch), documented: %s input gives NaN (valid range %s)"
-                                      % (nrm, direction, x, o, how, k,
-                                         tuple(float(e) for e in getattr(nrm, direction + "_range"))), rp)
+                                      "%r.%s(%r) = %r (input as %s), documented: %s input gives NaN (valid range %s)"
+                                      % (nrm, direction, x, o, shape, k, tuple(float(e) for e in getattr(nrm, rng_name))), rp)
                 elif k == "Valid":
                     if not np.isfinite(o):
-                        col.violation(sig, "%r.%s(%r) = %r (%s batch) although %r lies inside the documented range"
-                                      % (nrm, direction, x, o, how, x), rp)
+                        col.violation(sig, "%r.%s(%r) = %r (input as %s) although %r lies inside the documented range"
+                                      % (nrm, direction, x, o, shape, x), rp)
                 else:
                     col.note("%s:%s:denormalize-outside-image(undocumented)" % (name, lc))
-        # 2. the relation of the property: inverse(direction(x)) = x on the valid points
-        valid = np.array([x for x, k in zip(v, cls) if k == "Valid"])
-        if len(valid):
-            with warnings.catch_warnings():
-                warnings.simplefilter("ignore")
-                back = inv(fn(valid.copy()))
-            col.evals += len(valid)
-            ok = _relclose(back, valid, 1e-9)
-            if not ok.all():
-                i = int(np.flatnonzero(~ok)[0])
+            # the relation of the property: inverse(direction(x)) = x on the valid elements
+            if inv is not None and any(k == "Valid" for k in cl):
                 other = "denormalize" if direction == "normalize" else "normalize"
-                col.violation("roundtrip:%s:%s:%s" % (name, lc, other),
-                              "%r: %s(%s(%r)) = %r instead of %r (intermediate %r)"
-                              % (nrm, other, direction, float(valid[i]), float(back[i]), float(valid[i]),
-                                 float(fn(valid[i:i + 1].copy())[0])), rp)
+                with warnings.catch_warnings():
+                    warnings.simplefilter("ignore")
+                    try:
+                        back = np.asarray(inv(fn(arg)), dtype=float).reshape(-1)
+                    except Exception as e:  # noqa: BLE001
+                        col.violation("roundtrip:%s:%s:%s:%s:exception" % (name, lc, other, shape),
+                                      "%r: %s(%s(%r)) (input as %s) raised %r" % (nrm, other, direction, shown, shape, e), rp)
+                        continue
+                sel = np.array([k == "Valid" for k in cl])
+                want = np.array(flat)[sel]
+                ok = _relclose(back[sel], want, 1e-9)
+                col.evals += int(sel.sum())
+                if not ok.all():
+                    i = int(np.flatnonzero(~ok)[0])
+                    col.violation("roundtrip:%s:%s:%s" % (name, lc, other),
+                                  "%r: %s(%s(%r)) = %r instead of %r (input as %s)"
+                                  % (nrm, other, direction, float(want[i]), float(back[sel][i]), float(want[i]), shape), rp)
         col.traces += 1
-        col.nontrivial.add(("range", name, lam, shift, direction))
-        if name == "BoxCoxShift" and lamf < 0 and sf > 0 and direction == "denormalize":
-            col.sample({"section": "range", "normalizer": repr(nrm), "direction": direction,
+        col.nontrivial.add(("range", name, lam, shift, direction, shape))
+        if name == "BoxCoxShift" and lamf < 0 and sf > 0 and direction == "denormalize" and shape == "array2":
+            col.sample({"section": "range", "normalizer": repr(nrm), "direction": direction, "input_as": shape,
                         "values": [repr(x) for x in v.tolist()], "classes": cls}, cap=1)
 
 
@@ -755,6 +784,34 @@ def replay_force(col, states):
                         "exact_result": ["%d/%d" % tuple(q) for q in c["out"]]}, cap=1)
 
 
+def relation_explicit_zero_mean(col):
+    """an explicitly given mean of 0 (falsy) is THE mean: every array function that takes the mean of the
+    normal input is invariant under shifting input and mean together (Zinn-Harvey: the output shifts
+    along); the sample mean of the input is far from 0.  Relation between implementation outputs."""
+    import gstools.transform as gt
+
+    x = np.array([0.25, 0.5, 1.0, 1.5, 2.0, 3.0, -0.5, 4.0, 2.5, 0.75])      # sample mean 1.5
+    c = 2.0
+    for name, fn, kw, shifts in (("array_zinnharvey(conn=high)", gt.array_zinnharvey, dict(conn="high"), True),
+                                 ("array_zinnharvey(conn=low)", gt.array_zinnharvey, dict(conn="low"), True),
+                                 ("array_to_uniform", gt.array_to_uniform, dict(low=0.0, high=2.0), False),
+                                 ("array_to_arcsin", gt.array_to_arcsin, dict(a=0.0, b=3.0), False),
+                                 ("array_to_uquad", gt.array_to_uquad, dict(a=-1.0, b=0.0), False),
+                                 ("array_discrete(equal)", lambda f, mean, var: gt.array_discrete(
+                                     f, [0.0, 1.0, 5.0], "equal", mean=mean, var=var), {}, False)):
+        for var in (1.0, 2.25):
+            a = np.asarray(fn(x.copy(), mean=0.0, var=var, **kw), dtype=float)
+            b = np.asarray(fn(x + c, mean=c, var=var, **kw), dtype=float) - (c if shifts else 0.0)
+            col.evals += len(x)
+            col.traces += 1
+            if not np.allclose(a, b, rtol=1e-10, atol=1e-10):
+                col.violation("zero-mean:%s" % name.split("(")[0],
+                              "%s(x, mean=0.0, var=%r) = %s differs from the call with input and mean shifted by %r: %s "
+                              "(x = %s, sample mean 1.5)" % (name, var, a.tolist(), c, b.tolist(), x.tolist()),
+                              {"section": "zero-mean", "function": name})
+            col.nontrivial.add(("zero-mean", name, var))
+
+
 def relation_boxcox(col, range_states, fix_states):
     """Box-Cox transform inverts the Box-Cox normalizers.  array_boxcox(f, lmbda, shift) shifts the
     field by `shift` "before transformation", i.e. it is BoxCox(lmbda).denormalize(f + shift);
@@ -769,7 +826,8 @@ def relation_boxcox(col, range_states, fix_states):
     groups = {}
     for st in range_states:
         c = st["c"]
-        if c["norm"] in ("BoxCox", "BoxCoxShift") and c["dir"] == "normalize" and c["cls"] == "Valid":
+        if c["norm"] in ("BoxCox", "BoxCoxShift") and c["dir"] == "normalize" and c["cls"] == "Valid" \
+                and c.get("shape", "array1") == "array1":
             groups.setdefault((c["norm"], tuple(c["lam"]), tuple(c["shift"])), []).append(_f(c["v"]))
     exact = {}
     for st in fix_states:
@@ -833,11 +891,12 @@ def _mset(ms):
 
 def pipeline_module(name, kind, maxcalls, maxtrans, vtypes=("scalar",), meshes=("unstructured",), ktypes=("-",),
                     means=("none", "const", "call"), norms=(True, False), trends=("none", "const", "call"),
-                    m1=ALL_METHODS, m2=(("lognormal", "-"), ("binary", "default"))):
+                    m1=ALL_METHODS, m2=(("lognormal", "-"), ("binary", "default")), nspells=("instance", "none")):
     d = {
         "Kind": '"%s"' % kind, "MeanKinds": _sset(means),
         "NormKinds": "{" + ", ".join("TRUE" if n else "FALSE" for n in norms) + "}",
         "TrendKinds": _sset(trends), "VTypes": _sset(vtypes), "Meshes": _sset(meshes), "KTypes": _sset(ktypes),
+        "NSpells": _sset(nspells),
         "MaxCalls": str(maxcalls), "MaxTrans": str(maxtrans), "Methods1": _mset(m1), "Methods2": _mset(m2),
     }
     mod = "---- MODULE %s ----\nEXTENDS Pipeline\n" % name + "".join("Mc%s == %s\n" % kv for kv in d.items()) + "====\n"
@@ -863,6 +922,20 @@ def pipeline_plan(pid, tier):
                              3 if thorough else 2))
         plan.append(("CondSRF", "CondSRF", dict(maxcalls=nc, maxtrans=0, ktypes=("simple", "ordinary"), meshes=both), nc))
         plan.append(("Vario", "Vario", dict(maxcalls=1, maxtrans=0, vtypes=("scalar", "vector"), meshes=both), 1))
+        # the normalizer spelled as a class (or the identity class): call, change a sibling object built
+        # with the same spelling (parameters set / fitted by the library), call again
+        cls = ("class", "baseclass")
+        tr = ("none", "call") if not thorough else ("none", "const", "call")
+        mn = ("const",) if not thorough else ("none", "const", "call")
+        plan.append(("Field_spell", "Field", dict(maxcalls=3, maxtrans=0, nspells=cls, means=mn, trends=tr), 3))
+        plan.append(("SRF_spell", "SRF", dict(maxcalls=3, maxtrans=0, nspells=cls, means=mn, trends=tr,
+                                              meshes=("structured",)), 3))
+        plan.append(("Krige_spell", "Krige", dict(maxcalls=3, maxtrans=0, nspells=cls if thorough else ("class",),
+                                                  norms=(True, False) if thorough else (True,), means=("const",),
+                                                  trends=tr[:2], ktypes=("ordinary",)), 3))
+        plan.append(("CondSRF_spell", "CondSRF", dict(maxcalls=3, maxtrans=0, nspells=cls, means=("const",), trends=tr[:2],
+                                                      ktypes=("simple",)), 3))
+        plan.append(("Vario_spell", "Vario", dict(maxcalls=1, maxtrans=0, nspells=cls, meshes=both), 1))
     else:
         for kind in ("Field", "SRF"):
             for vt, mesh in (("scalar", "unstructured"), ("scalar", "structured"), ("vector", "unstructured"),
@@ -983,7 +1056,12 @@ class Instance:
         self.mesh = cfg["mesh"]
         self.gs = gs
         self.norm = None
-        if cfg["norm"]:
+        self.nspell = cfg.get("nspell", "instance" if cfg["norm"] else "none")
+        # self.norm is the driver's OWN normalizer with the configured parameters: it evaluates the
+        # documented steps and is never handed to the library
+        if cfg["norm"] and self.nspell == "class":   # default parameters of the class
+            self.norm = {"LogNormal": gn.LogNormal, "YeoJohnson": gn.Manly, "Modulus": gn.BoxCox}[flavour]()
+        elif cfg["norm"]:
             self.norm = {"LogNormal": gn.LogNormal(), "YeoJohnson": gn.YeoJohnson(lmbda=0.5),
                          "Modulus": gn.Modulus(lmbda=2.0)}[flavour]
         # a scalar mean is handed to array functions by the transformations
@@ -1079,13 +1157,26 @@ class Instance:
         return arr
 
     # -- real objects -------------------------------------------------------------------
+    def norm_arg(self):
+        """the normalizer argument in the spelling TLC dictates"""
+        import copy
+        import gstools.normalizer as gn
+
+        if self.nspell == "class":
+            return type(self.norm)
+        if self.nspell == "baseclass":
+            return gn.Normalizer
+        if self.nspell == "none" or self.norm is None:
+            return None
+        return copy.deepcopy(self.norm)     # an instance of its own with the configured parameters
+
     def _common(self):
-        return dict(mean=self.mean, normalizer=self.norm, trend=self.trend)
+        return dict(mean=self.mean, normalizer=self.norm_arg(), trend=self.trend)
 
     def _krige(self, model):
         gs, kt = self.gs, self.cfg["ktype"]
         cpos = [self.CX.copy(), self.CY.copy()]
-        kw = dict(normalizer=self.norm, trend=self.trend)
+        kw = dict(normalizer=self.norm_arg(), trend=self.trend)
         if kt == "simple":
             if self.mean is None:
                 return gs.krige.Krige(model, cpos, self.cond_val.copy(), unbiased=False, **kw)
@@ -1195,8 +1286,9 @@ def replay_history(col, kind, cfg, hist, flavour, phase, inst_cache, verbose=Fal
     mine = {}      # snapshots of every stored field, taken when the field was bound
     unspec = {}    # name -> positions whose value is unspecified (a discrete transformation of NaN)
     steps = 0
-    ctx = "%s[%s,%s,%s,%s%s]" % (kind, cfgclass(cfg), cfg["vtype"], cfg["mesh"], flavour if cfg["norm"] else "no-normalizer",
-                                 "," + cfg["ktype"] if cfg["ktype"] != "-" else "")
+    ctx = "%s[%s,%s,%s,%s%s%s]" % (kind, cfgclass(cfg), cfg["vtype"], cfg["mesh"], flavour if cfg["norm"] else "no-normalizer",
+                                   "," + cfg["ktype"] if cfg["ktype"] != "-" else "",
+                                   ",normalizer spelled as " + cfg["nspell"] if cfg.get("nspell") else "")
     hkey = lambda i: (kind, tlaval.freeze(cfg), flavour, tlaval.freeze([{k: v for k, v in r.items() if k in
                       ("op", "pp", "st", "only", "src", "method", "process", "keepMean")} for r in hist[:i + 1]]))
 
@@ -1208,6 +1300,8 @@ def replay_history(col, kind, cfg, hist, flavour, phase, inst_cache, verbose=Fal
         # signature = operation kind : configuration class (which components are present) : observable
         present = "+".join(n for n, on in (("mean", cfg["mean"] != "none"), ("normalizer", cfg["norm"]),
                                            ("trend", cfg["trend"] != "none")) if on) or "plain"
+        if cfg.get("nspell") in ("class", "baseclass"):
+            present += "(normalizer given as %s)" % ("class" if cfg["nspell"] == "class" else "the identity class")
         if rec["op"] == "transform":
             return "transform:%s:process=%d,keep_mean=%d:%s:%s" % (
                 rec["method"], rec["process"], rec["keepMean"], present, obs)
@@ -1283,7 +1377,7 @@ def replay_history(col, kind, cfg, hist, flavour, phase, inst_cache, verbose=Fal
                     fin = inst.bases["in"]
                     pre = inst.evaluate(rec["res"])
                     kw = dict(bin_edges=BIN_EDGES, mesh_type=inst.mesh, return_counts=True)
-                    real = gs.vario_estimate(inst.pos, np.array(fin, copy=True), mean=inst.mean, normalizer=inst.norm,
+                    real = gs.vario_estimate(inst.pos, np.array(fin, copy=True), mean=inst.mean, normalizer=inst.norm_arg(),
                                              trend=inst.trend, **kw)
                     ref = gs.vario_estimate(inst.pos, np.array(pre, copy=True), **kw)
                     if verbose:
@@ -1297,6 +1391,35 @@ def replay_history(col, kind, cfg, hist, flavour, phase, inst_cache, verbose=Fal
                                          ref[2].tolist()), rp(i))
                     elif _finite_share(ref[1]) >= 0.5:
                         col.nontrivial.add(hkey(i))
+                    continue
+                if op == "sibling":
+                    # a second object built with the same spelling, then its normalizer is changed
+                    how = rec["src"]
+                    sib = inst.make()
+                    pars = sorted(sib.normalizer.default_parameter)
+                    try:
+                        if how == "set":
+                            for pn in pars:
+                                setattr(sib.normalizer, pn, float(getattr(sib.normalizer, pn)) + 0.75)
+                        else:   # fitted by the library: fit_normalizer=True with the same spelling, and fit()
+                            line, dat = [np.arange(12.0)], FIT_DATA["skewed"]
+                            gs.vario_estimate(line, dat.copy(), bin_edges=[0.0, 2.0, 4.0, 6.0], normalizer=inst.norm_arg(),
+                                              fit_normalizer=True)
+                            gs.krige.Ordinary(gs.Exponential(dim=1, len_scale=2.0), line, dat.copy(),
+                                              normalizer=inst.norm_arg(), fit_normalizer=True)
+                            sib.normalizer.fit(dat.copy())
+                    except Exception as e:  # noqa: BLE001  (the sibling's own trouble is not this object's)
+                        col.note("sibling-%s-raised:%s" % (how, type(e).__name__))
+                    own = obj.normalizer
+                    ref = inst.norm if inst.norm is not None else own
+                    bad = [pn for pn in sorted(own.default_parameter) if not _same(getattr(own, pn), getattr(ref, pn))]
+                    if bad or type(own) is not type(ref):
+                        col.violation(sig(rec, "normalizer-parameters-changed"),
+                                      "%s: after a sibling object built with normalizer=%r had its normalizer %s, this object's "
+                                      "normalizer is %r instead of %r" % (ctx, inst.norm_arg(), "parameters assigned" if how == "set"
+                                                                          else "fitted", own, ref), rp(i))
+                    if not check_untouched(i, rec):
+                        break
                     continue
                 if op == "getmean":
                     got = obj.get_mean(post_process=rec["pp"])
@@ -1443,6 +1566,9 @@ def _describe(hist):
             out.append("get_mean(post_process=%s)" % r["pp"])
         elif r["op"] == "vario":
             out.append("vario_estimate")
+        elif r["op"] == "sibling":
+            out.append("sibling object with the same normalizer spelling: normalizer %s"
+                       % ("parameters assigned" if r["src"] == "set" else "fitted (fit_normalizer=True)"))
         else:
             out.append("transform(%s, field=%r, store=%r, process=%s, keep_mean=%s)"
                        % (r["method"], r["src"], _stv(r["st"]), r["process"], r["keepMean"]))
@@ -1514,7 +1640,12 @@ def _pipeline_worker(job):
 ASSUME_C18 = [
     "NOT covered: strict monotonicity and derivative = true derivative as analytic statements (covered: strict increase and the "
     "exact derivative of the rational pairs on the lattice; an auxiliary finite-difference comparison that never decides)",
-    "normalizer values are the float images of TLC's rationals; exact pairs are compared at 1e-12, relations at 1e-9",
+    "normalizer values are the float images of TLC's rationals; exact pairs are compared at 1e-12, relations at 1e-9; every "
+    "value of the domain table is handed over as python number, 0-d array, list, 1-d and 2-d array (same class expected)",
+    "normalizer argument spellings: own instance, class (default parameters: LogNormal, Manly(1), BoxCox(1)), None, the identity "
+    "class; a sibling object built with the same spelling whose normalizer is assigned / fitted (vario_estimate and Krige with "
+    "fit_normalizer=True, fit()) must not change this object: its parameters are compared bit-wise and later calls with the "
+    "documented term evaluated by the driver's own, never shared, normalizer",
     "YeoJohnson / Modulus with lmbda < 0 document no denormalize range although the image of normalize is bounded: such "
     "inputs are classified Open (any result accepted, counted under open_or_degenerate_cases)",
     "pipeline steps are uninterpreted in the spec; the binding uses non-commuting real instances (LogNormal, YeoJohnson(1/2), "
@@ -1534,7 +1665,9 @@ ASSUME_C19 = [
     "NOT covered: the distribution laws (log-normal, uniform, arcsine, U-quadratic, Zinn-Harvey marginal) - statements about "
     "distributions; 'equal' thresholds are covered for 2 classes (threshold = mean, exact) and for 3 / 4 classes through the "
     "enclosures 0.4307 < z(2/3) < 0.4308, 0.6744 < z(3/4) < 0.6745 of the normal quantiles (a mathematical assumption of the spec)",
-    "discrete/binary cases live on the quarter-unit lattice and are compared exactly",
+    "discrete/binary cases live on the quarter-unit lattice and are compared exactly; every optional number of the binary wrapper "
+    "is not given / given as 0 (0.0, 0, np.float64(0)) / given otherwise, the field mean is 2, a configured 0 or callable; bounds "
+    "a, b, low, high include a given 0; an explicit mean of 0 is checked by shift relations of the array functions",
     "NaN input of a discrete/binary transformation is outside the statement (array_discrete leaves those positions "
     "uninitialised); such positions are masked and counted under open_or_degenerate_cases",
     "value lists of length 1 (a single class) are degenerate: an exception is recorded as a note, not a violation",
@@ -1629,6 +1762,7 @@ def run(pid, tier, seed, replay=None):
             replay_bounds(col, dumps["Bounds"])
             replay_exact(col, dumps["NormExact"], pid)
             relation_boxcox(col, dumps["Range"], dumps["Fix"])
+            relation_explicit_zero_mean(col)
         col.merge_into(rep)
         rep.extra["pointwise_cases"] = {s: len(d) for s, d in dumps.items()}
         print("Pointwise replays done at %.1fs" % (time.time() - t0))
@@ -1641,7 +1775,7 @@ def run(pid, tier, seed, replay=None):
             if not thorough and pid == "C19":
                 cap = 2500
             if not thorough and pid == "C18":
-                cap = 2500
+                cap = 1200 if tag.endswith("_spell") else 2500
             n = min(results[("pl", tag)].distinct, cap or 10 ** 9)
             parts = max(1, -(-n // 4000))
             for part in range(parts):
@@ -1660,7 +1794,7 @@ def run(pid, tier, seed, replay=None):
     if pid == "C18":
         rule = ("Pipeline: every maximal call history TLC enumerates per object kind x (mean none/const/callable, normalizer "
                 "on/off, trend none/const/callable) x scalar/vector x mesh type x kriging flavour (quick: a seeded sample of at "
-                "most 2500 histories per TLC job, one normalizer flavour per history; thorough: all, three flavours, except one "
+                "most 2500 (spelling jobs: 1200) histories per TLC job, one normalizer flavour per history; thorough: all, three flavours, except one "
                 "flavour for the three-call kriging histories); every step "
                 "compares the real array with the documented term evaluated by the driver.  Pointwise: every case of the exact "
                 "pair table and of the domain table.  distinct non-trivial = distinct (object, configuration, flavour, call "
